@@ -30,3 +30,17 @@ package xsync
 //@   holding mu
 //@   track lock.* unlock.* trylock.*
 //@   ensures [delegates-to-the-real-mutex|C02] trace(unlock.mu)
+
+//@ func (*MutexWithSpinlock).TryLock
+//@   props C02 C13
+//@   ensures [reports-whether-the-lock-was-taken|C02] result == cas_ok(lock)
+
+//@ func (*MutexWithLock).TryLock
+//@   props C02
+//@   track lock.* unlock.* trylock.*
+//@   nolockleak-exempt
+//@   ensures [delegates-to-the-real-mutex|C02] trace(trylock.mu)
+
+//@ func (*MutexWithoutLock).TryLock
+//@   props C02
+//@   ensures [the-no-op-lock-is-always-free|C02] result == true
